@@ -3,7 +3,9 @@ module github.com/meshplus/bitxhub/verifharness
 go 1.14
 
 require (
+	github.com/bytecodealliance/wasmtime-go v0.37.0
 	github.com/cbergoon/merkletree v0.2.0
+	github.com/ethereum/go-ethereum v1.10.8
 	github.com/meshplus/bitxhub v0.0.0
 	github.com/meshplus/bitxhub-core v1.28.1-0.20230411032641-11245b4adfc5
 	github.com/meshplus/bitxhub-kit v1.28.0
